@@ -255,3 +255,56 @@ func sortStrings(s []string) {
 		}
 	}
 }
+
+// holdsAt returns the conditions known to hold at node n because of the branches enclosing it, each with its polarity:
+// the condition of an `if` whose then-branch contains n (true) or whose else-branch does (false), and the single test of
+// the clause of a tagless switch that contains n (true). The if- and the switch-spelling of a guard are the same guard.
+type heldCond struct {
+	cond ast.Expr
+	pos  bool
+}
+
+func holdsAt(pm map[ast.Node]ast.Node, n ast.Node) []heldCond {
+	var out []heldCond
+	var child ast.Node = n
+	for p := pm[child]; p != nil; child, p = p, pm[p] {
+		switch x := p.(type) {
+		case *ast.IfStmt:
+			if x.Body == child {
+				out = append(out, heldCond{x.Cond, true})
+			} else if x.Else == child {
+				out = append(out, heldCond{x.Cond, false})
+			}
+		case *ast.CaseClause:
+			if sw, ok := pm[pm[p]].(*ast.SwitchStmt); ok && sw.Tag == nil && len(x.List) == 1 {
+				out = append(out, heldCond{x.List[0], true})
+			}
+		}
+	}
+	return out
+}
+
+// equalitiesOf returns the equality comparisons (a == b) that hold when cond has the given truth value: a == b under
+// true (also inside a conjunction), a != b under false (also inside a disjunction).
+func equalitiesOf(cond ast.Expr, truth bool) []*ast.BinaryExpr {
+	var out []*ast.BinaryExpr
+	var walk func(e ast.Expr, t bool)
+	walk = func(e ast.Expr, t bool) {
+		switch x := unparen(e).(type) {
+		case *ast.BinaryExpr:
+			switch {
+			case x.Op == token.EQL && t, x.Op == token.NEQ && !t:
+				out = append(out, x)
+			case x.Op == token.LAND && t, x.Op == token.LOR && !t:
+				walk(x.X, t)
+				walk(x.Y, t)
+			}
+		case *ast.UnaryExpr:
+			if x.Op == token.NOT {
+				walk(x.X, !t)
+			}
+		}
+	}
+	walk(cond, truth)
+	return out
+}
